@@ -287,8 +287,15 @@ def gen_scenario(seed, shape=None):
             for q in qs:
                 if q["kind"] in ("attr", "sattr") and len(answer_bytes(q["kind"], q, recs, elems)) > 65522:
                     q["ids"] = [(0, 1)]
-    return {"seed": seed, "nclients": nclients, "mtus": mtus, "recs": recs, "queries": queries,
-            "max_delay": rng.choice([0.0, 0.002, 0.01]), "net_seed": rng.randrange(1 << 30)}
+    sc = {"seed": seed, "nclients": nclients, "mtus": mtus, "recs": recs, "queries": queries,
+          "max_delay": rng.choice([0.0, 0.002, 0.01]), "net_seed": rng.randrange(1 << 30)}
+    if shape.get("leaver") and nclients >= 2:
+        # one client only connects, and closes its SDP channel when the k-th response of the tuned transaction of
+        # another client has arrived (between two of that client's continuation requests); it connected last or first
+        lv = [c for c in range(nclients) if c != target_client][-1 if shape["leaver"] > 0 else 0]
+        queries[lv] = []
+        sc["leaver"] = {"c": lv + 1, "target": target_client + 1, "after": abs(shape["leaver"])}
+    return sc
 
 
 def _tune_padding(recs, i, q, want):
@@ -392,7 +399,15 @@ class ScenarioRun:
             self.clients.append(cl)
             self.events.append(blank("connect", c=c, mtu=sc["mtus"][c - 1]))
         self.running = {c: None for c in range(1, n + 1)}
+        self.leave_task = None
+        self.rsp_seen = {c: 0 for c in range(1, n + 1)}
         await asyncio.gather(*[self._client_task(c) for c in range(1, n + 1)])
+        if self.leave_task is not None:
+            await self.leave_task
+
+    async def _leave(self, c):
+        await self.clients[c - 1].disconnect()
+        self.events.append(blank("disconnect", c=c))
 
     def _tap(self, c, cl):
         orig_sink = cl.channel.sink
@@ -423,6 +438,11 @@ class ScenarioRun:
         if p["id"] == 0x01:
             self.events.append(blank("err", c=c, n=p.get("err", 0)))
             return
+        lv = self.sc.get("leaver")
+        if lv and c == lv["target"] and p.get("cont"):
+            self.rsp_seen[c] += 1
+            if self.rsp_seen[c] == lv["after"] and self.leave_task is None:
+                self.leave_task = asyncio.get_running_loop().create_task(self._leave(lv["c"]))
         kind = KIND_OF_RSP.get(p["id"], "other")
         cap = (mtu - 10) // 4 if kind == "search" else mtu - 8
         ev = blank("rsp", c=c, kind=kind, n=p.get("units", 0), cont=bool(p.get("cont")), plen=len(pdu), cap=cap)
